@@ -104,7 +104,8 @@ class Leaves(object):
         m = env.formula_manager
         self.m = m
         self.types = {"bool": BOOL, "int": INT, "real": REAL, "bv": BVType(W), "str": STRING,
-                      "arr": ArrayType(INT, INT), "arrbv": ArrayType(BVType(W), BVType(W))}
+                      "arr": ArrayType(INT, INT), "arrbv": ArrayType(BVType(W), BVType(W)),
+                      "bvgrow": BVType(W)}
         self.syms = {s: [m.Symbol("%s%d" % (s, i), t) for i in range(NLEAF)]
                      for s, t in self.types.items()}
 
@@ -199,12 +200,24 @@ def _operators():
     # read-over-write reasoning must not cost one step (or one stack frame) per store
     O["store-const"] = ["arr", lambda L, f, k: L.m.Store(f, L.m.Int(k), L.leaf("int", k)), None]
     O["store-const-samevalue"] = ["arr", lambda L, f, k: L.m.Store(f, L.m.Int(k), L.m.Int(7)), None]
+    # a word assembled piece by piece (the width grows with the depth), closed by reading its most significant field:
+    # a slice must not be pushed through the concatenations one stack frame (or one rewrite) per level
+    O["bvconcat-grow"] = ["bvgrow", lambda L, f, k: L.m.BVConcat(f, L.leaf("bv", k)), None]
+    # stores at constant indexes over a constant array (a lookup table / memory image): printed as a store chain over
+    # ((as const ...) d) and read back; the reader must not re-copy the cells read so far at every store
+    O["store-const-table"] = ["arr", lambda L, f, k: L.m.Store(f, L.m.Int(k), L.leaf("int", k)), None]
     return O
 
 
 OPERATORS = _operators()
+# own initial term of a family (default: the first leaf of the sort)
+INIT = {
+    "store-const-table": lambda L: L.m.Array(L.types["int"], L.m.Int(0)),
+}
 # own Boolean closure of a family (default: Leaves.close)
 CLOSE = {
+    "bvconcat-grow": lambda L, f, n: L.m.Equals(L.m.BVExtract(f, f.bv_width() - W, f.bv_width() - 1), L.leaf("bv", 1)),
+    "store-const-table": lambda L, f, n: L.m.Equals(L.m.Select(f, L.m.Int(n + 7)), L.leaf("int", 1)),
     "store-const": lambda L, f, n: L.m.Equals(L.m.Select(f, L.m.Int(n + 7)), L.leaf("int", 1)),
     "store-const-samevalue": lambda L, f, n: L.m.Equals(L.m.Select(f, L.m.Int(n + 7)), L.m.Int(7)),
 }
@@ -236,6 +249,10 @@ def tops(L, sort, f):
                 ("bvextract", lambda: m.BVExtract(f, 0, 0)), ("bvzext", lambda: m.BVZExt(f, 1)),
                 ("bvsext", lambda: m.BVSExt(f, 1)), ("bvrol", lambda: m.BVRol(f, 1)), ("bvror", lambda: m.BVRor(f, 1)),
                 ("bvtonatural", lambda: m.BVToNatural(f)), ("bvrepeat", lambda: m.BVRepeat(f, 2))]
+    elif sort == "bvgrow":
+        out = [("bvnot", lambda: m.BVNot(f)), ("bvneg", lambda: m.BVNeg(f)), ("bvextract-top", lambda: m.BVExtract(f, f.bv_width() - 1, f.bv_width() - 1)),
+               ("bvzext", lambda: m.BVZExt(f, 1)), ("bvconcat", lambda: m.BVConcat(f, L.leaf("bv", 0))),
+               ("bvtonatural", lambda: m.BVToNatural(f))]
     elif sort == "str":
         out += [("strlength", lambda: m.StrLength(f)), ("strconcat", lambda: m.StrConcat(f, a))]
     elif sort == "arr":
@@ -309,7 +326,7 @@ def build(opname, family, n, calls_limit=None):
     if calls_limit:
         MON.start_calls(calls_limit)
     try:
-        f = L.leaf(sort, 0)
+        f = INIT[opname](L) if opname in INIT else L.leaf(sort, 0)
         mid = None
         for k in range(n):
             f = step(L, f, k)
